@@ -377,6 +377,9 @@ func c12Registry(c *Ctx, r *Report) {
 	detail := ""
 	for _, ret := range rets {
 		retv := retVals(ret)[0]
+		if isNilConst(retv) && emptyRegistryGuard(ret) {
+			continue // `return nil` taken only when all three name lists are empty
+		}
 		merged := map[string]bool{}
 		walk(retv, 0, merged)
 		sorted := false
@@ -528,6 +531,7 @@ func c12Register(c *Ctx, r *Report, impl string, fn *ssa.Function) {
 	missing := map[string]bool{}
 	unsorted, earlyUpdate := false, ""
 	sawEmpty, sawDup := false, false
+	succNoEmpty, succNoDup := false, false
 	for _, o := range outs {
 		if o.Kind != "return" || len(o.Results) != 1 {
 			r.Unk("register-shape", id, fn.Pos(), "path not understood: "+o.Kind+" "+o.Why)
@@ -593,10 +597,22 @@ func c12Register(c *Ctx, r *Report, impl string, fn *ssa.Function) {
 			if at, ok := got["lintNames"]; !ok || sortAt < at {
 				unsorted = true
 			}
-			// the success path passed both guards
-			cs := o.CondString()
-			if !strings.Contains(cs, "!("+nameP+` == "")`) && !strings.Contains(cs, "("+nameP+` != "")`) {
-				sawEmpty = sawEmpty || false
+			// the success path passed both guards: name != "" and no lint of that name yet
+			passedEmpty, passedDup := false, false
+			for _, cd := range o.Conds {
+				t := cd.T.String()
+				if t == "("+nameP+` == "")` && !cd.Val {
+					passedEmpty = true
+				}
+				if strings.Contains(t, "lintsByName") && strings.Contains(t, nameP) && strings.HasSuffix(t, " == nil)") && strings.HasPrefix(t, "(lookup") && cd.Val {
+					passedDup = true
+				}
+			}
+			if !passedEmpty {
+				succNoEmpty = true
+			}
+			if !passedDup {
+				succNoDup = true
 			}
 		} else {
 			if len(got) > 0 {
@@ -622,8 +638,36 @@ func c12Register(c *Ctx, r *Report, impl string, fn *ssa.Function) {
 			"table "+tbl+" is not updated with the registered lint/name/source on every path to the success return: lookups by name, by source, the listing and the source list would disagree")
 	}
 	r.Check(!unsorted, "register-sorts", id, fn.Pos(), "lintNames sorted after the append", "lintNames is not re-sorted after the append on the success path: Names() would no longer be sorted")
-	r.Check(sawEmpty && earlyUpdate == "", "register-empty-name", id, fn.Pos(), "empty name rejected before any update", "an empty lint name is no longer rejected before the tables are updated"+map[bool]string{true: " (an error path updates " + earlyUpdate + ")", false: ""}[earlyUpdate != ""])
-	r.Check(sawDup && earlyUpdate == "", "register-duplicate-name", id, fn.Pos(), "duplicate name rejected before any update", "a name already present in lintsByName is no longer rejected before the tables are updated: two lints would share one result slot")
+	r.Check(sawEmpty && !succNoEmpty && earlyUpdate == "", "register-empty-name", id, fn.Pos(), "empty name rejected before any update", "an empty lint name is no longer rejected before the tables are updated"+map[bool]string{true: " (an error path updates " + earlyUpdate + ")", false: ""}[earlyUpdate != ""])
+	r.Check(sawDup && !succNoDup && earlyUpdate == "", "register-duplicate-name", id, fn.Pos(), "duplicate name rejected before any update", "a name already present in lintsByName is no longer rejected before the tables are updated: two lints would share one result slot")
+}
+
+// emptyRegistryGuard: the return is dominated by the true edge of
+// len(cert names)+len(ocsp names)+len(crl names) == 0 (in any order).
+func emptyRegistryGuard(ret *ssa.Return) bool {
+	for d := ret.Block(); d != nil; d = d.Idom() {
+		id := d.Idom()
+		if id == nil {
+			return false
+		}
+		iff, ok := id.Instrs[len(id.Instrs)-1].(*ssa.If)
+		if !ok || !(len(id.Succs[0].Preds) == 1 && id.Succs[0].Dominates(ret.Block())) {
+			continue
+		}
+		bo, ok := iff.Cond.(*ssa.BinOp)
+		if !ok || bo.Op != token.EQL {
+			continue
+		}
+		k, ok := bo.Y.(*ssa.Const)
+		if !ok || k.Value == nil || k.Value.ExactString() != "0" {
+			continue
+		}
+		p := apath(bo.X)
+		if strings.Contains(p, "certificateLints") && strings.Contains(p, "ocspResponseLints") && strings.Contains(p, "revocationListLints") && strings.Count(p, "lintNames") == 3 && !strings.Contains(p, "-") && !strings.Contains(p, "*") {
+			return true
+		}
+	}
+	return false
 }
 
 // stringSortCalls: the calls in fn that sort a []string (sort.Strings, slices.Sort).
